@@ -65,7 +65,10 @@ class SpatialNetwork(Network):
         """(Grid) - Grid object describing the network's spatial embedding"""
 
         #  Call constructor of parent class Network
+        #  (the number of nodes is given by the grid, an edge list alone
+        #  cannot tell about isolated nodes with the highest indices)
         Network.__init__(self, adjacency=adjacency, edge_list=edge_list,
+                         n_nodes=None if edge_list is None else grid.N,
                          directed=directed, silence_level=silence_level)
 
     def __cache_state__(self) -> Tuple[Hashable, ...]:
